@@ -287,6 +287,65 @@ def real_traces(run, n_runs, seed, boot_iter):
     return n
 
 
+def selftest(run=None):
+    """Binding self-test of the machinery itself: corrupted recorded traces must be rejected by the trace specification
+    and a perturbed expectation must be flagged by the replay comparison.  Raises MachineryError otherwise."""
+    import copy
+
+    from harness import gaussian as G
+
+    traces = []
+    for sd in range(1, 8):
+        calls, _ = G.run_real(sd, boot_iterations=100)
+        traces = [G.trace_of(c)[0] for c in calls]
+        t0 = traces[-1]
+        own = [r for r in t0["obs"]["modeled"] if [r["key"]] == r["pool"]]
+        other = [r for r in t0["obs"]["modeled"] if [r["key"]] != r["pool"]]
+        if own and other:
+            break
+    else:
+        raise tlc.MachineryError("selftest: no recorded run with both own-pool and fallback groups")
+
+    def corrupt(kind):
+        t = copy.deepcopy(t0)
+        m = t["obs"]["modeled"]
+        if kind == "sibling":
+            fb = next(r for r in m if [r["key"]] != r["pool"])
+            fb["pool"] = next(r for r in m if [r["key"]] == r["pool"])["pool"]
+        elif kind == "missing":
+            m.pop()
+        elif kind == "duplicate":
+            m.append(copy.deepcopy(m[0]))
+        elif kind == "nonfinite":
+            m[0]["finite"] = False
+        return t
+
+    rejected = {}
+    for kind in ("sibling", "missing", "duplicate", "nonfinite"):
+        got = []
+        n = tracecheck.validate("Trace_GaussianFallback", "Trace_GaussianFallback.cfg", [corrupt(kind)], lambda tr, c, i: got.append(c))
+        if n != 0 or not got:
+            raise tlc.MachineryError(f"selftest: trace corrupted by '{kind}' was accepted")
+        rejected[kind] = got[0]
+    if tracecheck.validate("Trace_GaussianFallback", "Trace_GaussianFallback.cfg", [copy.deepcopy(t0)], lambda *a: None) != 1:
+        raise tlc.MachineryError("selftest: the uncorrupted trace was rejected")
+    # replay side: perturb TLC's expectation of one scenario
+    sc = {"L": 2, "leaves": [{"key": [1, 1], "cal": 11, "out": True}, {"key": [1, 2], "cal": 2, "out": True}, {"key": [2, 1], "cal": 0, "out": True}]}
+    fr, call = G.run_scenario(sc, 5, boot_iterations=100)
+    obs = G.project(fr, call)
+    exp = {"T": 10, "calls": [], "models": [], "rows": [[1, 1], [1, 2], [2, 1]],
+           "modeled": [{"key": [1, 1], "mkey": [1, 1], "pool": [[1, 1]]}, {"key": [1, 2], "mkey": [1, 0], "pool": [[1, 1], [1, 2]]},
+                       {"key": [2, 1], "mkey": [0, 0], "pool": [[1, 1], [1, 2]]}]}
+    if compare(obs, exp)[0]:
+        raise tlc.MachineryError(f"selftest: correct expectation flagged: {compare(obs, exp)[0]}")
+    exp["modeled"][1]["pool"] = [[1, 2]]
+    if not any(b["clause"] == "right_pool" for b in compare(obs, exp)[0]):
+        raise tlc.MachineryError("selftest: perturbed expectation not flagged")
+    if run is not None:
+        run.cov["selftest"] = {"corrupted_traces_rejected": rejected, "perturbed_expectation_flagged": True}
+    return rejected
+
+
 def c15(tier, seed):
     run = report.Run("C15", tier, seed)
     run.assumptions += [
@@ -331,7 +390,7 @@ def c15(tier, seed):
     scens = scen["export 2x2"] + scen["export 1x2x2"]
     run.witness("exported_scenarios", len(scens))
     if quick:
-        pick, complete = sample_stratified(scens, 2000, rnd)
+        pick, complete = sample_stratified(scens, 1500, rnd)
         replay(run, pick, seed, boot_fast, "stratified sample of the exported terminal states, boot_sigma num_iterations=200")
     else:
         replay(run, scens, seed, boot_fast, "all exported terminal states, boot_sigma num_iterations=200")
@@ -341,8 +400,10 @@ def c15(tier, seed):
         sim = scen["simulate 2x3"]
         run.witness("simulated_scenarios", len(sim))
         replay(run, sim, seed + 2, boot_fast, "TLC -simulate on 2 x 3 leaves")
+    if not quick:
+        selftest(run)
     # 3. code -> spec
-    real_traces(run, 24 if quick else 360, seed + 5, 300 if quick else None)
+    real_traces(run, 21 if quick else 360, seed + 5, 300 if quick else None)
     req = [
         "exported_scenarios",
         "group_served_by_own_calibration",
